@@ -151,6 +151,7 @@ def check(case):
     alpha = alpha0
     # ---- (iv) explicit step: old + dt*RHS, input untouched
     m, BC, phi = problem.build_var(P)
+    phi.apply_BCs()   # documented duty of the caller when a variable is used before solvePDE (matters for BCs edited after construction)
     rhs = gen.expand('generic', case['rhs_seed'], (A.shape[0],))
     snap = (np.array(phi._value, copy=True), [np.array(getattr(getattr(phi.BCs, sd), k), copy=True)
                                               for sd in ('left', 'right', 'bottom', 'top', 'back', 'front') for k in 'abc'])
@@ -184,6 +185,7 @@ def check(case):
                      f"for theta={theta:.2e} ({tag})", float(np.abs(new - old).max() / (bound + 1e-300)))
         if theta <= 0.02:
             m2, BC2, ph2 = problem.build_var(P)
+            ph2.apply_BCs()
             rhs_e = np.zeros(A.shape[0])
             full_old = np.asarray(ph2._value, float).ravel()
             rhs_e[I] = -((A @ full_old)[I] - s[I]) / alpha
@@ -217,7 +219,14 @@ def check(case):
             res.discarded = True
             res.discard_reason = 'steady-nonfinite'
             return res
-        scs = np.abs(star).max() + 1e-300
+        # scale: the steady solution, or - when that is (numerically) zero - the size of the data
+        dscale = float(np.abs(old).max())
+        if P.get('gamma') is not None:
+            dscale = max(dscale, float(np.abs(np.array(P['gamma'], float)).max()))
+        for e in P['bc']:
+            for sd in ('lo', 'hi'):
+                dscale = max(dscale, float(np.abs(np.array(e[sd]['c'], float)).max()))
+        scs = max(float(np.abs(star).max()), 1e-6 * dscale, 1e-300)
         res.expect_small("steady-solve", float(np.abs(st_code - star).max() / scs), 1e-9 * max(1.0, cond * 1e-6), f"steady-solve:{tag}",
                          f"steady solvePDE != solution of the eliminated system ({tag})")
         # transient step from the steady state (the step's own system alpha/dt + A must be well conditioned: for
@@ -225,7 +234,9 @@ def check(case):
         # at which it is singular)
         T = np.diag(alpha / dt) + Ae
         try:
-            cT = float(np.abs(np.linalg.inv(T)).sum(axis=1).max() * np.abs(T).sum(axis=1).max())
+            # amplification of rounding: size of the constituents (alpha/dt and A, which may cancel) over the smallest singular value
+            smin = float(np.linalg.svd(T, compute_uv=False).min())
+            cT = (float(np.abs(alpha / dt).max()) + float(np.abs(Ae).sum(axis=1).max())) / smin if smin > 0 else float('inf')
         except np.linalg.LinAlgError:
             cT = float('inf')
         if not cT < 1e8:
